@@ -204,3 +204,11 @@ Fixpoint str_ltb (a b : str) : bool :=
   end.
 
 Definition is_empty (s : str) : bool := match s with [] => true | _ => false end.
+
+(* lazy boolean connectives: under call-by-value evaluation (vm_compute) the
+   second operand of && / || is always computed; these are the same functions
+   (see andl_spec, orl_spec) but only evaluate what is needed *)
+Notation "a &&& b" := (if a then b else false) (at level 40, left associativity).
+Notation "a ||| b" := (if a then true else b) (at level 50, left associativity).
+Lemma andl_spec (a b : bool) : (a &&& b) = a && b. Proof. destruct a; reflexivity. Qed.
+Lemma orl_spec (a b : bool) : (a ||| b) = a || b. Proof. destruct a; reflexivity. Qed.
